@@ -31,7 +31,7 @@ RULE = ('seeded generator over {covariance shape (scalar/vector/matrix/3-stack) 
         'given or not x number of models 1..5} and {evaluation dimensionality 2..5 x NaN samples x test type}; '
         'non-trivial: >=2 models or >=3 samples; distinct = configuration signature')
 ASSUMPTIONS = ['generated covariances are positive semi-definite', 'n_rdm, n_pattern >= 2 when given']
-REQUIRED = ['check:fixed_vs_scipy', 'check:extract_variances', 'check:result_variances', 'check:dual_bootstrap_bounds', 'check:p_range',
+REQUIRED = ['check:fixed_vs_scipy', 'check:extract_variances', 'check:result_variances', 'check:dtype_invariance', 'check:dual_bootstrap_bounds', 'check:p_range',
             'check:pairwise_symmetry', 'check:t_monotone', 'check:means_sem', 'check:model_permutation']
 REACH = ['extract_variances', '_correct_1d', '_dual_bootstrap', 't_tests', 't_test_0', 't_test_nc',
          'bootstrap_pair_tests', 'ranksum_pair_test', 'ranksum_value_test', 'all_tests', 'pair_tests', 'zero_tests',
@@ -381,6 +381,33 @@ def run_tests(ctx):
                      f'{pn[j]!r} to {pn4[j]!r}', wit(j=j, delta=delta))
 
 
+def run_dtype(ctx):
+    """the against-zero t-test does not depend on the floating-point width the evaluations are stored in: tiny but
+    real variances (standard errors of 1e-5) must not be floored by the precision of float32"""
+    rng = ctx.rng
+    n_model = int(rng.integers(1, 5))
+    n = int(rng.integers(5, 20))
+    se = 10.0 ** rng.uniform(-6, -4, size=n_model)             # standard errors of the mean
+    mean = se * rng.uniform(0.5, 6, size=n_model)              # t between 0.5 and 6
+    ev64 = (mean + rng.standard_normal((n, n_model)) * 1e-9).astype(np.float64)
+    var = se ** 2
+    dof = n - 1
+    sig = dict(test='t-test', dims='float32')
+    wit = lambda **k: dict(evaluations=ev64, variances=var, dof=dof, **k)  # noqa: E731
+    ok, p64 = ctx.guarded('dtype_invariance', sig, IU.t_test_0, ev64.copy(), var.copy(), dof, data=wit)
+    ok2, p32 = ctx.guarded('dtype_invariance', sig, IU.t_test_0, ev64.astype(np.float32), var.copy(), dof, data=wit)
+    if not (ok and ok2):
+        return
+    ctx.case('dtype_invariance', sig)
+    want = 1 - scipy.stats.t.cdf(ev64.mean(axis=0) / se, dof)
+    if not close(np.asarray(p64, dtype=float), want, 1e-6, 1e-9):
+        ctx.fail('dtype_invariance', dict(sig, what='float64_vs_scipy'), f'p {np.asarray(p64).tolist()} != one-sided t-test '
+                 f'{want.tolist()}', wit())
+    elif not close(np.asarray(p32, dtype=float), want, 1e-3, 1e-6):
+        ctx.fail('dtype_invariance', dict(sig, what='float32_differs'), f'float32 evaluations give p {np.asarray(p32).tolist()}, '
+                 f'float64 {np.asarray(p64).tolist()}', wit())
+
+
 def run_extreme_bootstrap(ctx):
     """all samples on one side: the bootstrap p-values must still be probabilities"""
     rng = ctx.rng
@@ -422,3 +449,5 @@ def run(ctx):
             run_fixed(ctx)
         if it % 5 == 0:
             run_extreme_bootstrap(ctx)
+        if it % 5 == 1:
+            run_dtype(ctx)
